@@ -305,6 +305,25 @@ class IntFacts(Hooks):
         self.ctx = ctx
         self.sl = None
         self.int_sites = []
+        self.int_prov = {}     # id(int call node) -> {(pattern name, group index)} the digit string comes from
+
+    @staticmethod
+    def provenance(eng, v):
+        """(pattern name, group) a string value is (a slice of) a regex group of, if known"""
+        for _ in range(6):
+            if not isinstance(v, Unk):
+                return None
+            o = eng.origin.get(v.term)
+            if o is None:
+                return None
+            if o[0] == "group":
+                patref = o[1][1]
+                return (str(patref.name).split(".")[-1], o[2])
+            if o[0] in ("slice", "item"):
+                v = o[1]
+                continue
+            return None
+        return None
 
     def bind(self, eng):
         self.sl = StrLang(self.ctx, eng)
@@ -324,6 +343,9 @@ class IntFacts(Hooks):
             s2 = st.copy()
             ok_all, w = d.included_in(digitsp)
             self.int_sites.append((node, args[0], st, ok_all, w, fr.func))
+            prov = self.provenance(eng, args[0])
+            if prov is not None:
+                self.int_prov.setdefault(id(node), set()).add(prov)
             if d.included_in(digits1)[0]:
                 s2.add_lin(ge(Lin.var(t), 0))
                 s2.add_lin(le(Lin.var(t), 9))
